@@ -129,7 +129,7 @@ def program(case):
 
 def cases(seed, tier):
     rng = random.Random('c07-%s' % seed)
-    n_cases = 90 if tier == 'quick' else 1200
+    n_cases = 90 if tier == 'quick' else 600
     out = []
     for k in range(n_cases):
         prng = random.Random(rng.getrandbits(64))
@@ -150,7 +150,7 @@ def cases(seed, tier):
                     'warm': prng.random() < 0.4,
                     'early_rerun': prng.random() < 0.6,
                     'outs': outs,
-                    'max_orders': 6 if tier == 'quick' else 24,
+                    'max_orders': 6 if tier == 'quick' else 12,
                     'tx_orders': 2 if tier == 'quick' else 3,
                     'scheduler': prng.choice(['legacy', 'default']),
                     'uuid_seed': prng.randint(0, 10 ** 6),
